@@ -133,6 +133,13 @@ def judge(case):
             cpy.append('zz')
             if src.lines != snap:
                 bad('ctor-aliases-content', f'was={snap!r} now={src.lines!r}')
+        # the lines setter copies: later changes of the caller's list do not reach the block
+        mine = ['p', 'q']
+        blk = TextBlock()
+        blk.lines = mine
+        mine.append('r')
+        if blk.lines != ['p', 'q']:
+            bad('lines-setter-aliases', f'{blk.lines!r}')
         # L5 -- trim
         for end_only in (False, True):
             blk = TextBlock(mk(enc))
@@ -207,6 +214,11 @@ def work_strings(slot):
         if i % nslots == idx:
             cases.append({'enc': {'s': s}})
             cases.append({'enc': ['L', {'s': 'x'}, {'s': s}, None]})
+    if idx == 0:
+        # scalars that a truthiness test would mistake for "empty"
+        for leaf in ({'n': 0}, {'n': 0.0}, {'b': False}, {'b': True}, {'n': -1}, {'n': 10 ** 20}):
+            for enc in (leaf, ['L', leaf], ['D', {'s': 'x'}, leaf], ['T', leaf, {'s': ''}], ['L', ['H', leaf]]):
+                cases.append({'enc': enc})
     _run_cases(cases, part)
     part.states += len(cases)
     return part
